@@ -43,7 +43,7 @@ GROUPS: Dict[str, tuple] = {
 }
 # rules of a home module that only make sense at home (whole-property obligations, not facts about shared code)
 HOME_ONLY = {"c16": set(), "c12": set(), "c10": set(), "c14": {"C14.R1", "C14.R2", "C14.R3"},
-             "c08": {"C08.R1", "C08.R2", "C08.R3", "C08.R4", "C08.R5", "C08.R6", "C08.R7", "C08.R8"}}
+             "c08": {"C08.R1", "C08.R2", "C08.R3", "C08.R4", "C08.R5", "C08.R6", "C08.R7", "C08.R8", "C08.R10"}}
 
 
 def reached_groups(ctx, entries: List[str]) -> Dict[str, List[str]]:
